@@ -63,6 +63,23 @@ def slice_expiring():
 SLICES = {'sides': slice_sides, 'prefixes': slice_prefixes,
           'expiring': slice_expiring}
 
+STARTS = {
+    'empty': (),
+    # live items with an expired one at the back and at the front
+    'expired-ends': (('push', 0, None, 'back', 1, None),
+                     ('push', 'a', None, 'back', None, None),
+                     ('push', BIG, None, 'back', None, None),
+                     ('push', 'c', None, 'back', None, None),
+                     ('push', 'd', None, 'back', 1, None),
+                     ('push', 9, 'q', 'back', 1, None),
+                     ('push', 8, 'q', 'back', None, None),
+                     ('tick', 2)),
+    'two-queues': (('push', 1, None, 'back', None, None),
+                   ('push', 2, None, 'front', None, None),
+                   ('push', 3, 'q', 'back', None, None),
+                   ('set', 'plain', 4, None, None)),
+}
+
 PUSH = ('push', 'x', None, 'back', None, None)
 PUSHF = ('push', 'f', None, 'front', None, None)
 PUSHBIG = ('push', BIG, None, 'back', None, None)
@@ -116,9 +133,10 @@ def sched_plan(tier):
 def work(unit):
     kind = unit[0]
     if kind == 'bfs':
-        _, name, settings, depth, ticks, seed, cap = unit
+        _, name, settings, depth, ticks, seed, cap, start = unit
         ab = run.shuffled(SLICES[name](), seed, name)
-        part = seq.bfs(lambda: CacheWorld(settings), ab, depth,
+        part = seq.bfs(lambda: CacheWorld(settings, True, STARTS[start]),
+                       ab, depth,
                        allow=c03.allow_ticks(ticks), label=name, time_cap=cap)
         part['label'] = 'bfs/' + name
         return part
@@ -144,7 +162,10 @@ def main(tier, seed):
                    [MFS, dict(MFS, cull_limit=0),
                     dict(MFS, eviction_policy='least-recently-used',
                          statistics=1)]):
-            units.append(('bfs', name, st, depth, 3, seed, cap))
+            for start in STARTS:
+                units.append(('bfs', name, st,
+                              depth if start == 'empty' else depth - 1, 3,
+                              seed, cap, start))
     for programs, init, bound in sched_plan(tier):
         for mode in (('own',) if tier == 'quick' else ('own', 'shared')):
             units.append(('sched', programs, init, bound, mode, cap))
@@ -153,7 +174,9 @@ def main(tier, seed):
         rep.merge(part, part.get('label'))
     rep.bounds = {
         'bfs': 'depth %d per slice (sides, prefixes None/a/ab/a-5/b, '
-               'expiring items)' % depth,
+               'expiring items) from the empty state, depth %d from two '
+               'seeded states (expired items at both ends; two queues)'
+               % (depth, depth - 1),
         'sched': '2 clients all interleavings; 3 clients <= 2 (quick) / 3 '
                  '(thorough) preemptions; roles producer(<=2 pushes), '
                  'consumer(<=2 pulls), peeker',
